@@ -1,5 +1,5 @@
 """Per-property checks. Every check follows vlib's pipeline; verdicts come from TLC trace validation."""
-import hashlib, json, os, time
+import hashlib, json, os, shutil, time
 import vlib
 from vlib import Infra, log, tlc, require_ok, pmap
 
@@ -448,6 +448,8 @@ def codec_check(pid, tier, seed, scratch, spec):
     trace_cfg, nrand=(q,t), rule, assumptions, nontrivial, key)"""
     import concurrent.futures as cf
     thorough = tier == "thorough"
+    if DUMP is not None:
+        return dump_docs(seed, scratch, spec)
     rep = Report(pid, tier, seed)
     rep.rule = spec["rule"]
     rep.assumptions = spec["assumptions"]
@@ -495,6 +497,48 @@ def codec_check(pid, tier, seed, scratch, spec):
     collect(rep, vals, pid, nontrivial=spec.get("nontrivial"), key=spec.get("key"), is_first=lambda ev: True)
     rep.extra["enumerated_by_tlc"] = sum(vlib.count_lines(t) for t in traces if ".rand." not in t)
     return rep.finish()
+
+
+# When set to dict(dir=..., every=...), a codec check only renders one partition of each of its generator
+# families and keeps every n-th document as a file (source documents of the conversion check C07).
+DUMP = None
+
+
+def dump_docs(seed, scratch, spec):
+    drive = vlib.build_harness(scratch)
+    for gi, (env, pq, pt, only) in enumerate(spec["gens"]):
+        if only == "thorough" or not pq:
+            continue
+        p = seed % pq
+        out = scratch.path("dump.cases.%s.%d.ndjson" % (spec["name"], gi))
+        e = dict(env)
+        e.update(GEN_OUT=out, GEN_PART=p, GEN_PARTS=pq)
+        require_ok(tlc(scratch, spec["gen_module"], spec["gen_cfg"], env=e, heap="3g", timeout=2400), "%s generation (documents)" % spec["name"])
+        vlib.run_drive(drive, [spec["drive_cmd"], "-cases", out, "-out", scratch.path("dump.trace.%s.%d" % (spec["name"], gi)),
+                               "-n0", str(gi * 1000000 + 7)] + spec.get("drive_args", []),
+                       env=dict(VERIF_DUMP_DIR=DUMP["dir"], VERIF_DUMP_EVERY=DUMP["every"]))
+    return 0
+
+
+def gen_docs(scratch, seed, every=41):
+    """Source documents from the C01-C06 generators (TLC truths x renderings, concretised by the codec drivers)."""
+    global DUMP
+    import concurrent.futures as cf
+    d = scratch.sub("gendocs")
+    if os.listdir(d):
+        return d
+    DUMP = dict(dir=d, every=every)
+    try:
+        with cf.ThreadPoolExecutor(max_workers=6) as ex:
+            fs = [ex.submit(REGISTRY[c], c, "quick", seed, scratch, None) for c in ("C01", "C02", "C03", "C04", "C05")]
+            fs.append(ex.submit(lambda: ts_docs(scratch, vlib.build_harness(scratch))))
+            for f in fs:
+                f.result()
+    finally:
+        DUMP = None
+    for f in os.listdir(scratch.sub("tsdocs")):
+        shutil.copy(os.path.join(scratch.sub("tsdocs"), f), d)
+    return d
 
 
 @register("C01")
@@ -862,3 +906,106 @@ def check_teletext(pid, tier, seed, scratch, replay):
 
 def selftest(pid, tier, seed, scratch, replay):
     raise Infra("selftest not implemented yet")
+
+
+# ------------------------------------------------------------------------------------------------
+# C07: conversion sessions (file API and command-line tool)
+# ------------------------------------------------------------------------------------------------
+
+def session_scope_stats(traces):
+    """How many histories stayed inside the statement's provisos, per (source, destination) pair."""
+    per, why = {}, {}
+    for tr in traces:
+        hist = {}
+        with open(tr) as f:
+            for line in f:
+                ev = json.loads(line)
+                hist.setdefault(ev["n"], []).append(ev)
+        for h in hist.values():
+            src = [e for e in h if e["ev"] == "source"]
+            w = [e for e in h if e["ev"] in ("write", "cli")]
+            if not src or not w:
+                why["ended-before-write"] = why.get("ended-before-write", 0) + 1
+                continue
+            dst = w[-1]["ext"]
+            norep = set(x for e in src for x in e["norep"])
+            reason = None
+            if any(e["res"] != "ok" for e in src):
+                reason = "source-unreadable"
+            elif not all(e.get("grid", True) for e in h):
+                reason = "off-grid-or-negative"
+            elif any(e["ev"] == "budget" for e in h):
+                reason = "over-budget"
+            elif dst in norep:
+                reason = "text-not-representable"
+            k = "%s->%s/%s" % (src[0]["fmt"], dst, src[0]["entry"])
+            a = per.setdefault(k, [0, 0])
+            a[1] += 1
+            if reason is None:
+                a[0] += 1
+            else:
+                why[reason] = why.get(reason, 0) + 1
+    return per, why
+
+
+@register("C07")
+def check_session(pid, tier, seed, scratch, replay):
+    import concurrent.futures as cf
+    thorough = tier == "thorough"
+    rep = Report(pid, tier, seed)
+    rep.rule = ("spec/Session.tla: state machine over (disk: file -> denoted cue list and frame rate, mem, fps, res) with steps Open / Apply / "
+                "Write (file API) and Cli (one run of the tool = Open;Apply;Write); TLC model-checks it (SessionMC: 2 sources x 6 output "
+                "files incl. an unsupported extension, lists of <=2 cues, all histories of <=3 (thorough 4) steps) for truncation "
+                "faithfulness, order, idempotent re-conversion, failed writes leaving no document, the tool touching only its output. "
+                "GenSession enumerates the histories replayed on the real code: every (source format, destination format) in 7x6 x every "
+                "operation sequence of length <=1 over 11 parametrised operations x both entry points x GEN_ND documents; every letter-case "
+                "spelling of every extension; unsupported extensions on either side, lists emptied by the operations, invalid tool flags; "
+                "per pair and entry point GEN_NS seeded sequences of length 2..4. Source documents: the repository's samples plus documents "
+                "rendered from the C01-C06 generators (styled, metadata-bearing, teletext streams). Library histories call astisub.Open, the "
+                "methods and Subtitles.Write; tool histories spawn the built astisub binary once per operation, chained through files of "
+                "the destination format. Every step logs the list in memory / the written file as re-read by the library; "
+                "TraceSession replays the log through Session's machine (each operation against Ops' specification, each write against "
+                "truncation to the destination's resolution, errors against the two sentinel errors incl. their precedence). "
+                "Non-trivial = distinct histories that reached a write.")
+    rep.assumptions = ["the reference content of a source file is what its format's reader returns (decided by C01-C06 on the same generators)",
+                       "instants are compared on a 1/3 ms grid (ms, 1/25 s and 1/30 s frames); a history with an instant off the grid, negative, or "
+                       "beyond the model's 32-bit range leaves the scope (counted in scope_exclusions)",
+                       "representable: every character has an EBU Latin code and the cue fits a TTI block (STL); no brace or backslash (SSA/ASS)",
+                       "linear correction inside sessions uses integral slopes (general slopes are C15's); operations on more than 80 cues or fragmenting into more than 120 pieces are skipped (over-budget)",
+                       "text = per line the runs concatenated with white space removed; voice names, styling and metadata are not compared here"]
+    drive = vlib.build_harness(scratch)
+    cli = vlib.build_cli(scratch)
+    docs = gen_docs(scratch, seed)
+    sets = [("one", dict(GEN_ND=6 if thorough else 2)), ("case", {}), ("err", {}),
+            ("long", dict(GEN_NS=60 if thorough else 8, GEN_K=4, GEN_SEED=seed))]
+
+    def run_set(i):
+        name, env = sets[i]
+        out = scratch.path("sess.%s.ndjson" % name)
+        e = dict(env)
+        e.update(GEN_SET=name, GEN_OUT=out)
+        require_ok(tlc(scratch, "GenSession", "GenSession.cfg", env=e, heap="2g", timeout=1500), "GenSession " + name)
+        tr = scratch.path("trace.session.%s.ndjson" % name)
+        vlib.run_drive(drive, ["session", "-cases", out, "-out", tr, "-cli", cli, "-extra", docs, "-seed", str(seed + i),
+                               "-n0", str(i * 10000000), "-workers", "8"], timeout=3000)
+        return tr
+
+    with cf.ThreadPoolExecutor(max_workers=vlib.NCPU) as ex:
+        c = "MC_Session_T.cfg" if thorough else "MC_Session.cfg"
+        mc = ex.submit(lambda: require_ok(tlc(scratch, "SessionMC", c, workers=6, timeout=3000, heap="6g"), c))
+        traces = [f.result() for f in [ex.submit(run_set, i) for i in range(len(sets))]]
+        vals = validate(ex, scratch, traces, "TraceSession", "TraceSession.cfg", per_jvm=1500)
+        rep.add_mc(c, mc.result())
+    collect(rep, vals, pid, nontrivial=lambda ev: ev["ev"] in ("write", "cli"), key=lambda ev: [ev["n"]])
+    per, why = session_scope_stats(traces)
+    rep.extra["enumerated_by_tlc"] = sum(vlib.count_lines(scratch.path("sess.%s.ndjson" % n)) for n, _ in sets)
+    rep.extra["histories_in_scope"] = sum(a[0] for a in per.values())
+    rep.extra["histories_total"] = sum(a[1] for a in per.values())
+    rep.extra["scope_exclusions"] = why
+    rep.extra["pair_entry_combinations_with_in_scope_history"] = sum(1 for a in per.values() if a[0])
+    rep.extra["pair_entry_combinations"] = len(per)
+    rep.extra["least_covered"] = dict(sorted(((k, a[0]) for k, a in per.items()), key=lambda x: x[1])[:5])
+    rep.extra["source_documents"] = len(os.listdir(docs))
+    if any(a[0] == 0 for a in per.values()):
+        raise Infra("vacuous: a (source, destination, entry) combination has no history in scope: %s" % [k for k, a in per.items() if not a[0]])
+    return rep.finish()
